@@ -47,9 +47,9 @@ def stripV (s : List Char) : List Char :=
   | 'v' :: t => t
   | _ => s
 
-/-- `partial_version()` including the normalisation after the first wildcard -/
-def partialVersion (s : List Char) : Option (Partial × List Char) :=
-  let s2 := dropBlanks (stripV s)
+/-- `partial_version()` after the optional `v` and blanks, including the normalisation after the first
+wildcard -/
+def partialCore (s2 : List Char) : Option (Partial × List Char) :=
   match component s2 with
   | none => none
   | some (major, r1) =>
@@ -61,19 +61,29 @@ def partialVersion (s : List Char) : Option (Partial × List Char) :=
     let q := if patch.isSome then ex.1 else ([], [])
     some (⟨major, minor, patch, q.1, q.2⟩, ex.2)
 
+/-- `partial_version()` -/
+def partialVersion (s : List Char) : Option (Partial × List Char) :=
+  partialCore (dropBlanks (stripV s))
+
 inductive Operation where
   | exact | gt | ge | lt | le
 deriving DecidableEq, Repr
 
-/-- `operation()` -/
+/-- `operation()`: `alt((">=", ">", "=", "<=", "<"))` -/
 def operation (s : List Char) : Option (Operation × List Char) :=
   match s with
-  | '>' :: '=' :: t => some (.ge, t)
-  | '>' :: t => some (.gt, t)
-  | '=' :: t => some (.exact, t)
-  | '<' :: '=' :: t => some (.le, t)
-  | '<' :: t => some (.lt, t)
-  | _ => none
+  | [] => none
+  | c :: rest =>
+    if c = '>' then
+      match rest with
+      | '=' :: t => some (.ge, t)
+      | _ => some (.gt, rest)
+    else if c = '=' then some (.exact, rest)
+    else if c = '<' then
+      match rest with
+      | '=' :: t => some (.le, t)
+      | _ => some (.lt, rest)
+    else none
 
 def zero0 : Version := Version.mk4 0 0 0 0
 
@@ -288,7 +298,7 @@ theorem dotComponent_length (s : List Char) : (dotComponent s).2.length ≤ s.le
   · simp
 
 theorem partialVersion_length {s p r} (h : partialVersion s = some (p, r)) : r.length < s.length := by
-  unfold partialVersion at h
+  unfold partialVersion partialCore at h
   simp only at h
   split at h
   · cases h
@@ -306,7 +316,16 @@ theorem partialVersion_length {s p r} (h : partialVersion s = some (p, r)) : r.l
 
 theorem operation_length {s o r} (h : operation s = some (o, r)) : r.length < s.length := by
   unfold operation at h
-  split at h <;> cases h <;> simp <;> omega
+  split at h
+  · cases h
+  · rename_i c rest
+    split at h
+    · split at h <;> cases h <;> simp <;> omega
+    · split at h
+      · cases h; simp
+      · split at h
+        · split at h <;> cases h <;> simp <;> omega
+        · cases h
 
 theorem primitive_length {s b r} (h : primitive s = some (b, r)) : r.length < s.length := by
   unfold primitive at h
